@@ -88,23 +88,45 @@ def _registry():
     reg(M + 'majority_filter', lambda g, nd: ([g.b(g.shape(2, 3)) if g.r.random() < 0.6 else g.b((g.r.randint(1, 2), g.r.randint(1, 7))[::g.r.choice([1, -1])])],
                                              {'N': g.r.choice([3, 3, 5])}), dims=(2,), res='bool')
 
+    _mode = lambda g: ({'mode': g.r.choice(['nearest', 'wrap', 'reflect', 'mirror', 'constant', 'ignore', 'ignore'])}
+                       if g.r.random() < 0.5 else {})
+
     def ext(g, nd):
         f = g.fl(g.shape(nd, 2), 0, 3) if g.r.random() < 0.3 else g.img(g.shape(nd, 2))
         return [f, g.bc(nd)], {}
     for fn in ('locmax', 'locmin', 'regmax', 'regmin'):
         reg(M + fn, ext, res='bool')
 
-    reg(C + 'convolve', lambda g, nd: ([g.fl(g.shape(nd, 2)), g.fl(tuple(g.r.randint(1, 3) for _ in range(nd)), 0, 3)], {}))
-    reg(C + 'convolve1d', lambda g, nd: ([g.fl(g.shape(nd, 4)), g.fl((g.r.choice([2, 3]),), 0, 3), g.r.randrange(nd)], {}), flow='convolve1d')
+    reg(C + 'convolve', lambda g, nd: ([g.fl(g.shape(nd, 2)), g.fl(tuple(g.r.randint(1, 3) for _ in range(nd)), 0, 3)], _mode(g)))
+    reg(C + 'convolve1d', lambda g, nd: ([g.fl(g.shape(nd, 4)), g.fl((g.r.choice([2, 3]),), 0, 3), g.r.randrange(nd)], _mode(g)), flow='convolve1d')
+
+    MODES = ['nearest', 'wrap', 'reflect', 'mirror', 'constant', 'ignore']
+
+    def mode(g, p=0.6):
+        # every border mode, 'ignore' most often: there a pixel may have NO sample at all (a neighbourhood without its
+        # centre at the image edge) and the kernel must still write that pixel of the caller's buffer
+        return {'mode': g.r.choice(MODES + ['ignore', 'ignore', 'constant'])} if g.r.random() < p else {}
+
+    def offbc(g, nd):
+        # a neighbourhood that does not contain its centre (one or two off-centre entries)
+        B = np.zeros((3,) * nd, bool)
+        for _ in range(g.r.choice([1, 1, 2])):
+            while True:
+                pos = tuple(g.r.randrange(3) for _ in range(nd))
+                if pos != (1,) * nd:
+                    break
+            B[pos] = True
+        return B
 
     def filt(g, nd):
-        return [g.img(g.shape(nd, 2), g.r.choice([np.uint8, np.int32, np.float64])), g.bc(nd)], {}
+        bc = offbc(g, nd) if g.r.random() < 0.35 else g.bc(nd)
+        return [g.img(g.shape(nd, 2), g.r.choice([np.uint8, np.int32, np.float64])), bc], mode(g)
     reg(C + 'median_filter', filt)
     reg(C + 'mean_filter', filt, res='float64')
-    reg(C + 'rank_filter', lambda g, nd: (filt(g, nd)[0] + [0], {}))
-    reg(C + 'template_match', lambda g, nd: ([g.fl(g.shape(nd, 3)), g.fl((2,) * nd, 0, 3)], {}))
-    reg(C + 'gaussian_filter', lambda g, nd: ([g.fl(g.shape(nd, 3)), 0.75], {}), flow='gaussian')
-    reg(C + 'gaussian_filter1d', lambda g, nd: ([g.fl(g.shape(nd, 3)), 0.75, g.r.randrange(nd)], {}), flow='gaussian1d')
+    reg(C + 'rank_filter', lambda g, nd: (lambda a, kw: (a + [0], kw))(*filt(g, nd)))
+    reg(C + 'template_match', lambda g, nd: ([g.fl(g.shape(nd, 3)), g.fl((2,) * nd, 0, 3)], mode(g)))
+    reg(C + 'gaussian_filter', lambda g, nd: ([g.fl(g.shape(nd, 3)), 0.75], mode(g, 0.4)), flow='gaussian')
+    reg(C + 'gaussian_filter1d', lambda g, nd: ([g.fl(g.shape(nd, 3)), 0.75, g.r.randrange(nd)], mode(g, 0.4)), flow='gaussian1d')
 
     reg(L + 'label', lambda g, nd: ([g.b(g.shape(nd, 2)), g.bc(nd)], {}), res='int32', flow='label')
     reg(L + 'remove_bordering', lambda g, nd: ([g.lab(g.shape(nd, 3), 3, np.int32)], {}), flow=None, req=(), alias=True, dims=(2, 3))
@@ -113,8 +135,9 @@ def _registry():
 
     reg(I + 'spline_filter1d', lambda g, nd: ([g.fl(g.shape(nd, 4)), 3, g.r.randrange(nd)], {}), res='float64')
     reg(I + 'spline_filter', lambda g, nd: ([g.fl(g.shape(nd, 4))], {}), res='float64')
-    reg(I + 'shift', lambda g, nd: ([g.fl(g.shape(nd, 4)), [0.5] * nd], {}), res='float64')
-    reg(I + 'zoom', lambda g, nd: ([g.fl(g.shape(nd, 4)), 1.5], {}), flow='zoom', req=('contig',), res=None)
+    _imode = lambda g: ({'mode': g.r.choice(['nearest', 'wrap', 'reflect', 'mirror', 'constant'])} if g.r.random() < 0.5 else {})
+    reg(I + 'shift', lambda g, nd: ([g.fl(g.shape(nd, 4)), [g.r.choice([0.5, -1.25, 2.0, 7.5])] * nd], _imode(g)), res='float64')
+    reg(I + 'zoom', lambda g, nd: ([g.fl(g.shape(nd, 4)), 1.5], _imode(g)), flow='zoom', req=('contig',), res=None)
     reg('mahotas.features.texture.cooccurence', lambda g, nd: ([g.u8(g.shape(2, 3), 4), 0], {}), dims=(2,), flow=None,
         req=('dtype',), res=None)
     return REG
